@@ -183,14 +183,69 @@ func (o Overflow) Error() string {
 	return fmt.Sprintf("simrt: call depth exceeded (%d frames) in %s", o.Depth, o.Func)
 }
 
-// callerName names the instrumented function that called Tick/Enter.
-func callerName() string {
-	if pc, _, _, ok := runtime.Caller(2); ok {
-		if f := runtime.FuncForPC(pc); f != nil {
-			return f.Name()
+// callerName names the code that ran out of budget, in a way that does not
+// depend on where exactly the counter tripped.
+//   - depth budget: the function that occurs most often among the innermost 64
+//     frames (a member of the recursion cycle; ties go to the smallest name);
+//   - tick budget: the outermost frame that belongs to a parser, pass, veneer or
+//     jenny package, i.e. the stage that does not finish.
+func callerName(overflow bool) string {
+	pcs := make([]uintptr, 512)
+	n := runtime.Callers(3, pcs)
+	frames := runtime.CallersFrames(pcs[:n])
+	var names []string
+	for {
+		fr, more := frames.Next()
+		name := fr.Function
+		if len(name) > 22 && name[:22] == "github.com/grafana/cog" && !contains(name, "/internal/zzverif") {
+			names = append(names, name)
+		}
+		if !more {
+			break
 		}
 	}
-	return "?"
+	if len(names) == 0 {
+		return "?"
+	}
+	if overflow {
+		top := names
+		if len(top) > 64 {
+			top = top[:64]
+		}
+		count := map[string]int{}
+		for _, nm := range top {
+			count[nm]++
+		}
+		best, bestN := "", 0
+		for nm, c := range count {
+			if c > bestN || (c == bestN && nm < best) {
+				best, bestN = nm, c
+			}
+		}
+		return best
+	}
+	stagePkgs := []string{"/jennies/", "/internal/simplecue.", "/internal/jsonschema.", "/internal/openapi.", "/internal/veneers/", "/internal/yaml.", "/internal/languages.", "/internal/ast/compiler."}
+	for i := len(names) - 1; i >= 0; i-- {
+		nm := names[i]
+		if contains(nm, "compiler.Passes.") || contains(nm, "compiler.(*Visitor).") || contains(nm, "/jennies/common.") || contains(nm, "/jennies/template.") {
+			continue
+		}
+		for _, p := range stagePkgs {
+			if contains(nm, p) {
+				return nm
+			}
+		}
+	}
+	return names[0]
+}
+
+func contains(s, sub string) bool {
+	for i := 0; i+len(sub) <= len(s); i++ {
+		if s[i:i+len(sub)] == sub {
+			return true
+		}
+	}
+	return false
 }
 
 // Tick advances simulated time by one unit. Inserted at every loop head.
@@ -204,7 +259,7 @@ func Tick() {
 	}
 	r.Ticks++
 	if r.Ticks > r.MaxTicks {
-		r.Aborted = Hang{r.Ticks, callerName()}
+		r.Aborted = Hang{r.Ticks, callerName(false)}
 		panic(r.Aborted)
 	}
 }
@@ -224,11 +279,11 @@ func Enter() {
 		r.PeakDepth = r.Depth
 	}
 	if r.Depth > r.MaxDepth {
-		r.Aborted = Overflow{r.Depth, callerName()}
+		r.Aborted = Overflow{r.Depth, callerName(true)}
 		panic(r.Aborted)
 	}
 	if r.Ticks > r.MaxTicks {
-		r.Aborted = Hang{r.Ticks, callerName()}
+		r.Aborted = Hang{r.Ticks, callerName(false)}
 		panic(r.Aborted)
 	}
 }
